@@ -66,7 +66,7 @@ SingleOK(e) ==
                          /\ StampInDomain(e.st)
                          /\ StampOf(e.st) = StampDecode(e.in)
                          /\ e.un = Instant(StampDecode(e.in)))
-    [] e.op = "Name" -> e.pan = "" /\ Len(e.out) >= 1 /\ e.out[1] = Len(e.out) - 1 /\ NameOK(e.txt, Tail(e.out))
+    [] e.op = "Name" -> e.pan = "" /\ Len(e.out) >= 1 /\ e.out[1] = Len(e.out) - 1 /\ NameOKAny(e.txt, Tail(e.out))
     [] OTHER -> FALSE
 SingleKnown(e) ==
   CASE e.pan # "" -> ""
